@@ -3,9 +3,9 @@
 # it was found by - the violation must come back (a fixed entry in known_findings.txt suppresses nothing).
 cd /verif
 declare -A MAP=( [e9af902]=C02 [9b932f9]=C01 [897d5ab]=C04 [6288173]=C04 [c5e5ccd]=C06 [6a7e771]=C20 [0914c02]=C14
-                 [8f6f1dc]=C15 [ab1f04a]=C18 [0be12ad]=C18 [81107ec]=C06 [a343286]=C10 [daba0ca]=C10 [8798603]=C10 [7ad3c6d]=C10 [321bc34]=C08 [9f48263]=C07 [6a8a829]=C07 [45de43d]=C03 [b7c2694]=C15 )
+                 [8f6f1dc]=C15 [ab1f04a]=C18 [0be12ad]=C18 [81107ec]=C06 [a343286]=C10 [daba0ca]=C10 [8798603]=C10 [7ad3c6d]=C10 [321bc34]=C08 [9f48263]=C07 [6a8a829]=C07 [45de43d]=C03 [b7c2694]=C15 [b7b432f]=C16 )
 rc=0
-for h in e9af902 9b932f9 897d5ab 6288173 c5e5ccd 6a7e771 0914c02 8f6f1dc ab1f04a 0be12ad 81107ec a343286 daba0ca 8798603 7ad3c6d 321bc34 9f48263 6a8a829 45de43d b7c2694; do
+for h in e9af902 9b932f9 897d5ab 6288173 c5e5ccd 6a7e771 0914c02 8f6f1dc ab1f04a 0be12ad 81107ec a343286 daba0ca 8798603 7ad3c6d 321bc34 9f48263 6a8a829 45de43d b7c2694 b7b432f; do
   id=${MAP[$h]}
   d=/dev/shm/finam-revert-$$; rm -rf $d; mkdir -p $d; cp -r /repo/src $d/src
   git -C /repo diff $h^ $h > $d/fix.diff
